@@ -340,7 +340,11 @@ def main(argv):
         "wall_s": round(wall, 2),
         "violations": n_viol,
     }
-    with open(os.path.join(ROOT, "evidence", pid + ".json"), "w") as f:
+    # VERIF_EVIDENCE_DIR: where to write the evidence record (default /verif/evidence); runs against
+    # seeded changes use a scratch directory so that the committed evidence stays a clean-tree run
+    evdir = os.environ.get("VERIF_EVIDENCE_DIR") or os.path.join(ROOT, "evidence")
+    os.makedirs(evdir, exist_ok=True)
+    with open(os.path.join(evdir, pid + ".json"), "w") as f:
         json.dump(ev, f, indent=1)
 
     for l in known_lines:
